@@ -15,6 +15,7 @@
 package main
 
 import (
+	"bytes"
 	"encoding/hex"
 	"encoding/json"
 	"flag"
@@ -498,6 +499,18 @@ func main() {
 				copy(p[46:], n)
 				return p
 			})
+			// a valid 82-byte extended key (payload + checksum) followed by 1..8 further bytes
+			full, _ := refaddr.B58Decode(base)
+			for n := 1; n <= 8; n++ {
+				for _, fb := range []byte{0x00, 0xff} {
+					evalXKey(st, "xkey-trailing-bytes", refaddr.B58Encode(append(append([]byte{}, full...), bytes.Repeat([]byte{fb}, n)...)))
+				}
+				if n >= 4 {
+					x := append(append([]byte{}, full...), make([]byte, n-4)...)
+					evalXKey(st, "xkey-trailing-bytes", refaddr.B58Encode(append(x, refaddr.Sha256d(x)[:4]...)))
+				}
+				evalXKey(st, "xkey-leading-bytes", refaddr.B58Encode(append(bytes.Repeat([]byte{0x01}, n), full...)))
+			}
 			mod(func(p []byte) []byte { return p[:77] })
 			mod(func(p []byte) []byte { return append(p, 0) })
 			mod(func(p []byte) []byte { return p[:4] })
